@@ -46,7 +46,9 @@ for pid in ALL:
                               "Trusted base: CPython ast, networkx dominators, the resolver and CFG in /verif/sa (resolution "
                               "statistics in evidence). Decides necessary structural conditions of the property from /repo's "
                               "source on every run; the behaviour taken whole (all SQL inputs) is not claimed."),
-        "technique": getattr(mod, "TECHNIQUE", "static analysis: repo-specific AST/CFG/call-graph rules over /repo's source"),
+        "technique": getattr(mod, "TECHNIQUE", "static analysis: repo-specific rules over /repo's source - source normalisation (helpers absorbed, "
+                                                "loops/temporaries/constants in normal form), type-free name/call resolution, statement CFG with dominators and "
+                                                "must-hold guard facts, value-flow (reaching definitions, influences), sqlfluff grammar model; nothing is executed"),
     })
 
 manifest = {
@@ -64,10 +66,10 @@ manifest = {
             "name": "sa",
             "path": "/verif/sa",
             "serves_properties": [c["property_id"] for c in checks],
-            "kind_free_text": "custom static analyser for this repository: ast-based program model with name/type/call "
-                              "resolution (E0), statement CFG with dominators and must-hold guard facts (E1), small abstract "
-                              "interpretations (E2), sqlfluff grammar model read from installed dialect sources (E3), effect "
-                              "summaries (E4); one rule module per property",
+            "kind_free_text": "custom static analyser for this repository: normalising front-end (sa/normalise.py), ast-based program model "
+                              "with name/type/call resolution (E0), statement CFG with dominators and must-hold guard facts (E1), small abstract "
+                              "interpretations (E2), sqlfluff grammar model read from installed dialect sources (E3); one rule module per property; "
+                              "thorough tier = quick tier + self-test (AST mutants, seeded breaking patches, neutral refactoring patches)",
         }
     ],
     "checks": checks,
